@@ -9,8 +9,9 @@ RULE = ("seeded epsilon-NFAs and ordered pairs (overlapping / disjoint alphabets
         "'a; b' and 'TrashNode' look-alikes) x value-hash schedule x PYTHONHASHSEED; each operation's result is "
         "extracted and compared exactly (pair-graph walk) with the reference set algebra; non-trivial = both "
         "operand languages non-empty; distinct = (pair structure digest, order signature)")
-ASSUMPTIONS = ["union/concatenate/kleene_star go through to_regex, so for them symbol values are plain tokens "
-               "(as the property states); the other operations also run on V-valued symbols"]
+ASSUMPTIONS = ["every operation runs on every kind of symbol value (plain strings, V objects, ints / floats, multi-character "
+               "strings); up to fix FX-41 union/concatenate/kleene_star went through to_regex and were checked on plain "
+               "tokens only"]
 
 PAIR_POOL = ["a", "b", "a; b", "b; a", "TrashNode", "c", "a; b; c", "q0", "q1"]
 
@@ -149,8 +150,10 @@ def run(case, out):
     _cmp(out, "sub", out.call("sub", lambda: fa - fb), M.Diff(A, B), alpha)
     _cmp(out, "reverse", out.call("reverse", fa.reverse), M.Sub(M.reverse(ra)), alpha)
     _cmp(out, "invert", out.call("invert", lambda: ~fa), M.Sub(M.reverse(ra)), alpha)
-    # --- rational operations (through regular expressions: plain tokens only) ---
-    if case.get("plain") and ca["symmode"] == "str":
+    # --- rational operations (on every kind of symbol value) ---
+    if True:
+        if not (case.get("plain") and ca["symmode"] == "str"):
+            out.probe("rational_ops_on_non_plain_symbols")
         _cmp(out, "union", out.call("union", fa.union, fb), M.Or(A, B), alpha)
         _cmp(out, "concatenate", out.call("concatenate", fa.concatenate, fb), M.Sub(M.concat(ra, rb)), alpha)
         _cmp(out, "kleene_star", out.call("kleene_star", fa.kleene_star), M.Sub(M.star(ra)), alpha)
